@@ -45,24 +45,51 @@ def scanner_bounds(g, n, maxnul, refills=0):
 
 
 def e1_jobs(ctx, spec, cfg, lengths, maxnul=1, nodefault=False, checks='functional',
-            timeout=600, mem_mb=8000, witness_rule=None, tagx='', extra_options=(), g=None, wd=None, source='buffer'):
-    """One job per input length.  Returns (jobs, generated)."""
+            timeout=600, mem_mb=8000, witness_rule=None, tagx='', extra_options=(), g=None, wd=None, source='buffer',
+            interior_lengths=()):
+    """Per input length n: one job without NUL in the input (tight end-of-buffer bounds), one with a NUL
+    budget (NUL transition / 'goto yy_match' inside the step) when maxnul > 0; per interior length one
+    job restricted to inputs whose first match attempt jams inside the buffer (no end-of-buffer code).
+    Returns (jobs, generated)."""
     if g is None:
         wd, g = _prep(ctx, spec, cfg, 'e1' + tagx, extra_options=ALLOC_OPTS + list(extra_options))
     jobs = []
     if not g.ok:
         return jobs, g
+    plan = []
     for n in lengths:
         k = min(maxnul, n)
-        src = os.path.join(wd, 'e1%s_n%d_k%d%s.c' % (tagx, n, k, '_w' if witness_rule else ''))
+        if witness_rule or n == 0 or source != 'buffer':
+            plan.append((n, k, False))
+            continue
+        plan.append((n, 0, False))
+        if k:
+            plan.append((n, k, False))
+    for n in interior_lengths:
+        if n >= 1 and not witness_rule and source == 'buffer':
+            plan.append((n, 0, True))
+            if min(maxnul, n):
+                plan.append((n, min(maxnul, n), True))
+    for n, k, interior in plan:
+        it = '_int' if interior else ''
+        src = os.path.join(wd, 'e1%s_n%d_k%d%s%s.c' % (tagx, n, k, '_w' if witness_rule else '', it))
         with open(src, 'w') as fh:
-            fh.write(H.e1_harness(g, cfg, spec, n, k, nodefault=nodefault, witness=witness_rule, source=source))
-        j = cbmc.Job('e1%s_%s_%s_n%d_k%d%s' % (tagx, spec.name, cfg.name, n, k, '_w' if witness_rule else ''),
-                     wd, [src], scanner_bounds(g, n, k), includes=[wd, H.HDIR],
+            fh.write(H.e1_harness(g, cfg, spec, n, k, nodefault=nodefault, witness=witness_rule, source=source, interior=interior))
+        b = scanner_bounds(g, n, k)
+        if source == 'buffer' and n > 0:
+            # every action returns; yywrap() is not supplied with a further source: the outer loop is not repeated
+            b['outer'] = 1
+            # yy_scan_buffer source (yy_fill_buffer == 0): a refill never continues the scan; each NUL of the
+            # input takes one of the two NUL arms once; the end of the buffer is met at most once, with pending text
+            b.update({'goto_match_cont': 1, 'goto_match_nul': 1 + k, 'goto_find_action_nul': 1 + k,
+                      'goto_find_action_last': (1 if interior else 2), 'goto_do_action': 1})
+        j = cbmc.Job('e1%s_%s_%s_n%d_k%d%s%s' % (tagx, spec.name, cfg.name, n, k, '_w' if witness_rule else '', it),
+                     wd, [src], b, includes=[wd, H.HDIR],
                      checks=checks, harness_bound=None, timeout=timeout, mem_mb=mem_mb,
                      gen_file=g.cpath, expect='witness' if witness_rule else 'proved',
                      meta=dict(engine='E1', entry=spec.name, config=cfg.name,
-                               bound='len=%d nul<=%d' % (n, k), flex_input=g.ltext, flex_args=g.args, scanner=os.path.basename(g.cpath)))
+                               bound='len=%d nul<=%d%s' % (n, k, ' interior (match attempt jams inside the buffer)' if interior else ''),
+                               flex_input=g.ltext, flex_args=g.args, scanner=os.path.basename(g.cpath)))
         jobs.append(j)
     ctx.functions.update(['yylex', 'yy_get_previous_state', 'yy_try_NUL_trans', 'yy_get_next_buffer',
                           'yy_scan_buffer', 'yy_switch_to_buffer', 'yy_load_buffer_state', 'yyensure_buffer_stack'])
